@@ -40,6 +40,10 @@ fn cases() -> Vec<Case> {
             }
         }
     }
+    // a module that holds nothing but extern values
+    for ety in [0usize, 1, 2] {
+        out.push(Case { kind: "extern_value_only_module", addr: EXEC_ADDRS[1] + 0x900, style: NumStyle::Hex, ety, exec: true, public: true });
+    }
     // the value's type is also defined by imported modules that sort before / after the module
     for ety in [3usize, 4, 5] {
         out.push(Case { kind: "extern_value_with_imports", addr: 0x10900, style: NumStyle::Hex, ety, exec: false, public: true });
@@ -103,6 +107,9 @@ fn module_of(c: &Case) -> String {
             items.push(Item::ExternValue { name: "last".into(), public: true, ty: MTy::b("u32"), address: Some(c.addr as i128 + 0x10) });
         }
         _ => {}
+    }
+    if c.kind == "extern_value_only_module" {
+        items = vec![Item::ExternValue { name: "gv".into(), public: c.public, ty: match c.ety { 0 => MTy::b("u32"), 1 => MTy::b("u8").mptr(), _ => MTy::b("u16").arr(4) }, address: Some(c.addr as i128) }];
     }
     Printer { style: c.style, reverse_type_attrs: false, docs_after_attrs: false }.module(&ModuleS::new("m").with(items))
 }
@@ -261,6 +268,7 @@ pub fn run(tier: &str, only: Option<&Value>) -> i32 {
                     rep.count("rejected_as_required", 1);
                     None
                 }
+                (pipe::Verdict::Ok(b), _) if !b.files.contains_key("m.rs") => Some(("no_output_file_for_the_module".to_string(), format!("files: {:?}", b.files.keys().collect::<Vec<_>>()))),
                 (pipe::Verdict::Ok(b), _) => {
                     let r = judge_text(c, &b.files["m.rs"]);
                     if r.is_none() && c.exec && ps == 8 {
